@@ -262,6 +262,7 @@ class ExecMixin(object):
                     raise OutOfSubset("Scope item assignment", node)
                 if isinstance(cell, HObj) and cell.cls == "Tree":
                     st.env["tree_key"], st.env["tree_val"] = idx, v
+                    st.env["tree_path"] = cell.f.get("path", VStr(""))
                     return    # abstract store; the contract attaches a ghost event to this statement
             raise OutOfSubset("subscript store on %r" % (base,), node)
         raise OutOfSubset("assignment target %s" % type(t).__name__, node)
@@ -624,7 +625,7 @@ class ExecMixin(object):
             return HList(c.ek, n, z3.Array(fresh_name(nm + "_arr"), IntS, SORTS[c.ek]))
         if isinstance(cell, HObj):
             if cell.cls == "Tree":
-                return cell
+                return HObj("Tree", {"path": fresh("str", nm + "_path")})     # some node of the tree: its path is unknown
             if cell.cls == "file":
                 f = dict(cell.f)
                 f["out"] = self.fresh_like(cell.f["out"], st, "out")
